@@ -3,7 +3,7 @@ from vf.driver import contract_units
 
 LEVEL = "proof"
 MODULES = ["contracts.c_access", "contracts.c_engine", "contracts.c_request", "contracts.c_attributes",
-           "contracts.c_locate"]
+           "contracts.c_locate", "contracts.c_crypto", "contracts.c_factory", "contracts.c_template"]
 EXPLANATION = ("For every request handler under contract, every path of the real code under the payload "
                "invariant (what the decoder accepts), every stored class/state and every protocol version "
                "either returns or raises one of the declared KmipError classes (obligation raises.unexpected: "
@@ -12,4 +12,5 @@ EXPLANATION = ("For every request handler under contract, every path of the real
 
 
 def units(ctx):
-    return contract_units("C13", MODULES, ctx)
+    from vf import facts
+    return contract_units("C13", MODULES, ctx) + facts.units(["crypto_wrapped"], ctx)
